@@ -9,7 +9,7 @@ resolves every global through find_class.
 import ast
 
 from ..model import dotted, unparse, norm, walk_no_nested
-from ..paths import PathExec
+from ..paths import PathExec, static_truth
 from ..symeval import show
 from ..rulelib import Ctx, reaching_defs, value_assigned, short, resolve_copies
 
@@ -81,6 +81,14 @@ def run(check):
         up = getattr(up, '_parent', None)
       if f is gu and isinstance(up, ast.Return):
         continue          # judged by R-C13-guarded-return
+      if f is None and isinstance(up, ast.Dict):
+        # a module-level lookup table: fine if get_unpickler is its only reader (its entries are judged there, by cases)
+        asg = getattr(up, '_parent', None)
+        tname = asg.targets[0].id if isinstance(asg, ast.Assign) and len(asg.targets) == 1 and isinstance(asg.targets[0], ast.Name) else None
+        readers = {repo.enclosing_function(m, x) for x in ast.walk(m.tree) if isinstance(x, ast.Name) and x.id == tname and
+                   isinstance(x.ctx, ast.Load)} if tname else {None}
+        if tname and readers and all(r_ is not None and r_.key == gu.key for r_ in readers):
+          continue
       r_d.violate('pickle module used as an unpickler object', f if f is not None else where, par if par is not None else n,
                   'the pickle module is passed around as a value in %s (`%s`): whoever calls .loads on it bypasses the '
                   'allow-list' % (where, short(par) if par is not None else n.id))
@@ -171,10 +179,34 @@ def run(check):
       r_g.ok('get_unpickler returns SafeUnpickler otherwise', gu.loc(rn.ast))
     else:
       r_g.violate('unknown unpickler returned', gu, rn.ast, 'get_unpickler returns `%s`' % (unparse(v) if v is not None else 'None'))
-  for rn in [n for n in g.nodes if n.kind == 'stmt' and isinstance(n.ast, ast.Return)]:
-    vals = resolve_copies(gu, rn.ast.value) if rn.ast.value is not None else [None]
-    for v in vals:
-      judge_return(rn, v if isinstance(v, ast.AST) or v is None else None, False)
+  # decided by cases: the value returned when `insecure` is false must be SafeUnpickler; when it is true, the pickle module
+  # or SafeUnpickler (PathExec with the parameter assumed; a lookup table indexed by bool(insecure) is evaluated)
+  pk_names = {name for name in gu.module.imports
+              if any(t_[0] == 'mod' and t_[1] in PICKLE_MODULES for t_ in T.module_attr(gu.module.name, name))}
+  rets_gu = [n for n in g.nodes if n.kind == 'stmt' and isinstance(n.ast, ast.Return)]
+  for assumed in (False, True):
+    pxg = PathExec(cx, gu, unroll=0, follow_exceptions=False, assume={('param', p_ins): ('const', assumed)})
+    outs = set()
+    for hit in pxg.run(rets_gu):
+      v = hit.node.ast.value
+      if isinstance(v, ast.IfExp):
+        tt = static_truth(pxg.test_term(v.test, hit.env))
+        v = v.body if tt is True else (v.orelse if tt is False else v)
+      outs.add((hit.node, hit.term(v, pxg) if v is not None else ('const', None)))
+    for rn, t_ in sorted(outs, key=lambda x: (x[0].lineno, repr(x[1]))):
+      if t_ == ('param', 'SafeUnpickler'):
+        r_g.ok('insecure=%s: get_unpickler returns SafeUnpickler' % assumed, gu.loc(rn.ast))
+      elif isinstance(t_, tuple) and t_[0] == 'param' and t_[1] in pk_names:
+        if assumed:
+          r_g.ok('get_unpickler returns the raw pickle module only when `insecure` is true', gu.loc(rn.ast))
+        else:
+          r_g.violate('raw pickle returned unconditionally', gu, rn.ast, 'get_unpickler can return the raw pickle module although '
+                      '`insecure` is false')
+      else:
+        r_g.violate('unknown unpickler returned', gu, rn.ast, 'with insecure=%s get_unpickler returns `%s`' % (assumed, show(t_)))
+    if not outs:
+      r_g.violate('no unpickler returned', gu, None, 'with insecure=%s get_unpickler returns nothing' % assumed,
+                  construct='get_unpickler(insecure=%s)' % assumed)
   variants = []
   for sc in safe_classes:
     fc = sc.methods.get('find_class')
